@@ -10,15 +10,24 @@ spec -> code : (a) every state of C13_Verdicts mode "sets" (all 511 bases over S
                every call (memo mismatch = DRIFT, wrong verdict = VIOLATION); a transition tour over the cyclic
                full-history machine on a small universe.
 code -> spec : one long process-wide history of calls on larger random bases (and their symmetric images), with the
-               real counting sequences, judged by Trace_C13.
+               real counting sequences, judged by Trace_C13; in the same history: whole symmetry orbits of structured
+               permutations of length 6-8 asked in shuffled order with the functions in rotating order, bases of 6-10
+               elements with repetitions in one-shot forms, finite classes counted beyond their Erdos-Szekeres bound,
+               and single questions (Trace_C13 op "Q") through Av objects created before / after clear_cache and
+               enumeration, the command line with 0- and 1-based text (in process and as a real command), more
+               containers (deque, dict views, reversed, filter, chain, tee'd and half-consumed iterators), degenerate
+               bases, and cold processes whose very first call is one function on a basis with elements of length 6-7.
 The definitions of module Growth are cross-checked once per run by LibSanity_Growth.
 """
+import collections
 import concurrent.futures
 import contextlib
 import gc
 import io
 import itertools
 import json
+import subprocess
+import sys
 import time
 
 from permuta import Av, Basis, Perm
@@ -86,6 +95,21 @@ def build(kind, seq):
         return iter(list(seq))
     if kind == "map":
         return map(Perm, [tuple(p) for p in seq])      # one-shot, yields fresh equal objects
+    if kind == "reversed":
+        return reversed(list(seq))
+    if kind == "filter":
+        return filter(None, [None] + list(seq))
+    if kind == "chain":
+        half = len(seq) // 2
+        return itertools.chain(list(seq)[half:], iter(list(seq)[:half]))
+    if kind == "deque":
+        return collections.deque(seq)
+    if kind == "dictkeys":
+        return dict.fromkeys(seq).keys()
+    if kind == "dictvalues":
+        return {i: p for i, p in enumerate(seq)}.values()
+    if kind == "setiter":
+        return iter(set(seq))
     raise ValueError(kind)
 
 
@@ -101,6 +125,32 @@ def cli_out(cmd, text):
     with contextlib.redirect_stdout(buf):
         args.func(args)
     return buf.getvalue()
+
+
+def parse_poly(out):
+    if "is not polynomial" in out:
+        return False
+    if "is polynomial" in out:
+        return True
+    return out
+
+
+def parse_insenc(out):
+    return {"iem": "has a regular topmost insertion encoding" in out,
+            "ier": "has a regular rightmost insertion encoding" in out,
+            "ie": "does not have a regular insertion encoding" not in out}
+
+
+TEXTS = (("0-based _", lambda seq: basis_text(seq)),
+         ("1-based :", lambda seq: ":".join("".join(str(v + 1) for v in p) for p in seq)),
+         ("0-based comma blank", lambda seq: ", ".join("".join(str(v) for v in p) for p in seq)),
+         ("1-based blank, reversed", lambda seq: " ".join("".join(str(v + 1) for v in p) for p in reversed(list(seq)))))
+
+
+def command_line(cmd, text):
+    """The command as a user runs it: a new process, permuta.cli.main with sys.argv."""
+    return subprocess.Popen([sys.executable, "-c", "import sys; from permuta.cli import main; sys.argv[0] = 'permtools'; main()", cmd, text],
+                            stdout=subprocess.PIPE, stderr=subprocess.PIPE, text=True)
 
 
 def cli_poly(seq):
@@ -439,6 +489,7 @@ def run(ctx):
     long45 = [p for n in (4, 5) for p in util.perms_of(n)]
     allsets = [c for k in range(1, 10) for c in itertools.combinations(small, k)]
     ncode = 7 if quick else 8
+    cold = []
     pool = concurrent.futures.ThreadPoolExecutor(max_workers=17)
     submit = lambda j: pool.submit(tlc.run_tlc, j[0], j[1], **j[2])
     try:
@@ -464,6 +515,7 @@ def run(ctx):
         for t in FOUR:
             fillers.append((t, "ier", greedy_filler(memo.props, fill_pool, t, set(FOUR) - {t})))
             fillers.append((t, "iem", greedy_filler(tprops, fill_pool, t, set(FOUR) - {t})))
+        cold = cold_start(util.rng(ctx, 1313), quick, fillers)
         filler_sets, filler_meta = [], {}
         for t, f, F in fillers:
             for p in long45:
@@ -512,6 +564,11 @@ def run(ctx):
         # calls on bases with long elements (every order of up to three elements)
         for ch in chunks(mixed[:12 if quick else 60], 2 if quick else 8):
             jobs.append(("calls", job("calls", ch, ordermax=3, reps=True, warm=warm1 if quick else warm3, maxwarm=1)))
+        # memo entries of related permutations: a call on one symmetric image of p after earlier calls on other images
+        # (the quarter turn of an element is a key of the run-shape table, so images share entries)
+        for p in rnd.sample(long45[:24], 1 if quick else 4) + rnd.sample(long45[24:], 1 if quick else 4):
+            orbit = sorted({tuple(REAL_SYM[g](P(p))) for g in SYMS})
+            jobs.append(("calls", job("calls", [(p,)], syms=SYMS, ordermax=1, reps=False, warm=[[q] for q in orbit], maxwarm=1)))
         # the cyclic full-history machine on a small universe: every call may follow every call
         hist_el = [(0, 2, 1), (2, 0, 1)] if quick else [(0, 2, 1), (2, 0, 1), (1, 0)]
         hist_seqs = [[a] for a in hist_el] + [[a, b] for a in hist_el for b in hist_el if a != b] + [[hist_el[0], hist_el[0]], [hist_el[1], hist_el[0], hist_el[1]]]
@@ -642,17 +699,20 @@ def run(ctx):
 
     lap("replay full-history tour")
     # ---- 6. code -> spec: one long history on larger random bases --------------------------------------------------
-    events = record_trace(ctx, memo, rnd, 150 if quick else 1200, 60 if quick else 400, 7 if quick else 8)
+    head, tail = record_probes(ctx, memo, util.rng(ctx, 131313), quick, 7 if quick else 8, cold, fillers)
+    events = head + record_trace(ctx, memo, rnd, 150 if quick else 1200, 60 if quick else 400, 7 if quick else 8) + tail
+    ctx.note("trace_events", dict(collections.Counter(e["op"] for e in events)))
+    ctx.note("single_questions_via", dict(collections.Counter(e["via"].split(",")[0] for e in events if e["op"] == "Q")))
     v = util.validate_trace(ctx, "Trace_C13", events, timeout=3000)
     ctx.case(n=len(events))
     for ev in events:
         if len(ev["basis"]) > 1:
-            ctx.nontrivial.add(("trace", json.dumps(ev["basis"])))
+            ctx.nontrivial.add(("trace", json.dumps(ev["basis"]), ev.get("via", "")))
     for b in v["verdict"]:
         ev = events[b["i"] - 1]
         ctx.violation({"kind": "event", "index": b["i"], "event": {k: ev[k] for k in ev if k not in ("pmemo", "imemo")}}, b["clause"],
                       "verdict of the structure theorem / consistency with the recorded counts (see clause in Trace_C13)",
-                      {k: ev[k] for k in ("v", "vimg", "counts") if k in ev})
+                      {k: ev[k] for k in ("v", "vimg", "counts", "res") if k in ev})
     for b in v["drift"][:3]:
         ctx.drift("trace event %d: %s %s" % (b["i"], b["clause"], json.dumps(events[b["i"] - 1])[:300]))
     ctx.sample({"machine": "Trace_C13", "events": events[:2]})
@@ -668,7 +728,10 @@ def run(ctx):
                 "(quick tier: bases of > 3 elements from non-initial memo states in 4 forms, CLI from the initial state and for short "
                 "sequences from two more states); transition tour of the "
                 "cyclic full-history machine; non-trivial = basis with >= 2 elements (and a non-empty memo for edges); plus a long "
-                "recorded history on random bases judged by Trace_C13" % (6 if quick else 7, len(four_all), 1 if quick else 2))
+                "recorded history on random bases judged by Trace_C13 (with symmetry orbits of long structured permutations, bases "
+                "of 6-10 elements, finite classes counted beyond their bound, and single questions through Av objects around "
+                "clear_cache, the command line in four spellings, further containers, lazy arguments, degenerate bases and cold "
+                "processes)" % (6 if quick else 7, len(four_all), 1 if quick else 2))
     ctx.assumptions.append("the initial state of the history machine (a fresh process) is realised by emptying the two memo dicts; "
                            "container forms of one edge are all started from the memo state reached by the real earlier calls "
                            "(the dicts are put back to that state between forms)")
@@ -687,23 +750,39 @@ def proj_entries(memo, seq):
     return pmemo, imemo
 
 
-def verdicts_of(mk):
+def verdicts_of(mk, order=FUNS):
     out = {}
-    for f in FUNS:
+    for f in order:
         st, got = util.call(REAL[f], mk())
         out[f] = bool(got) if st == "ok" else None
     return out
 
 
-def v_event(ctx, memo, seq, ncount, mk=None):
+def counts_guarded(seq, upto, cap=5000):
+    """Av(seq).count(0..upto), stopping early once a level is larger than cap (only a class wrongly declared
+    finite gets there)."""
+    a = Av(basis_of(seq))
+    out = []
+    for n in range(upto + 1):
+        out.append(a.count(n))
+        if out[-1] > cap:
+            break
+    return out
+
+
+def v_event(ctx, memo, seq, ncount, mk=None, order=FUNS, beyond=False):
     perms = [Perm(p) for p in seq]
-    v = verdicts_of(mk or (lambda: list(perms)))
+    v = verdicts_of(mk or (lambda: list(perms)), order)
     if any(x is None for x in v.values()):
         ctx.violation({"kind": "event", "basis": [list(p) for p in seq]}, "NoException", "six verdicts", v)
         return None
     longest = max(len(p) for p in seq)
     n = ncount if longest <= 5 else ncount - 1
-    st, counts = util.call(real_counts, perms, n)
+    if beyond and v["fin"]:
+        # a class declared finite is counted well beyond any Erdos-Szekeres bound of its basis (empty levels are free)
+        st, counts = util.call(counts_guarded, perms, 18)
+    else:
+        st, counts = util.call(real_counts, perms, n)
     if st == "raise":
         ctx.violation({"kind": "event", "basis": [list(p) for p in seq]}, "NoException", "counting sequence", counts)
         return None
@@ -760,6 +839,237 @@ def layered_like(rnd, n):
             hi -= sz
     return tuple(out)
 
+# ---- single questions and special histories (all judged by Trace_C13) ---------------------------------------------
+COLD = r"""
+import json, sys
+from permuta import Av, Basis, Perm
+from permuta import permutils as pu
+REAL = {"fin": pu.is_finite, "poly": pu.is_polynomial, "npoly": pu.is_non_polynomial, "ie": pu.is_insertion_encodable,
+        "ier": pu.is_insertion_encodable_rightmost, "iem": pu.is_insertion_encodable_maximum}
+AVM = {"fin": lambda a: a.is_finite(), "poly": lambda a: a.is_polynomial(), "ie": lambda a: a.is_insertion_encodable()}
+basis = [tuple(p) for p in json.loads(sys.argv[1])]
+via = sys.argv[3]
+def arg():
+    perms = [Perm(p) for p in basis]
+    return {"list": lambda: perms, "iterator": lambda: iter(perms), "tuple": lambda: tuple(perms), "Basis": lambda: Basis(*perms)}[via]()
+out = []
+for f in json.loads(sys.argv[2]):
+    try:
+        out.append([f, "ok", bool(AVM[f](Av(Basis(*[Perm(p) for p in basis]))) if via == "Av" else REAL[f](arg()))])
+    except Exception as e:
+        out.append([f, "raise", type(e).__name__])
+print(json.dumps(out))
+"""
+
+
+def structured(rnd, n):
+    """Layered shapes, juxtapositions of two monotone sequences (or their inverses), monotone or random permutations."""
+    k = rnd.random()
+    if k < 0.35:
+        return layered_like(rnd, n)
+    if k < 0.75:
+        a = sorted(rnd.sample(range(n), rnd.randint(1, n - 1)))
+        b = sorted(set(range(n)) - set(a))
+        a = a if rnd.random() < 0.5 else a[::-1]
+        b = b if rnd.random() < 0.5 else b[::-1]
+        p = tuple(a + b)
+        return tuple(Perm(p).inverse()) if rnd.random() < 0.5 else p
+    if k < 0.85:
+        return tuple(range(n)) if rnd.random() < 0.5 else tuple(range(n - 1, -1, -1))
+    return util.rand_perm(rnd, n)
+
+
+def aimed(rnd, t, n):
+    """A permutation of length n that is likely of the structural type named t (an input generator, not an oracle:
+    TLC decides)."""
+    if t in ("L2", "L2I"):
+        sizes = []
+        while sum(sizes) < n:
+            sizes.append(min(rnd.choice([1, 2, 2]), n - sum(sizes)))
+        out, lo = [], 0
+        for sz in sizes:
+            out += list(range(lo + sz - 1, lo - 1, -1))
+            lo += sz
+        return tuple(out) if t == "L2" else tuple(reversed(out))
+    a = sorted(rnd.sample(range(n), rnd.randint(2, n - 2)))
+    b = sorted(set(range(n)) - set(a))
+    sign = t[-2:]
+    p = tuple((a if sign[0] == "P" else a[::-1]) + (b if sign[1] == "P" else b[::-1]))
+    return tuple(Perm(p).inverse()) if t.startswith("WI") else p
+
+
+def cold_start(rnd, quick, fillers):
+    """Cold processes: the very first call of the process is one function on a basis with elements of length 6-7 (then
+    the other functions follow).  The bases are a filler basis F_t of short elements having every type but t (computed
+    from the model's tables) plus a long permutation aimed at t, listed first: the long element decides the verdict.
+    Started early, collected by record_probes."""
+    out = []
+    vias = ("list", "iterator", "Av", "tuple", "Basis", "list")
+    for i in range(5 if quick else 18):
+        t, fdec, F = fillers[(3 * i + rnd.randrange(3)) % len(fillers)]
+        B = [aimed(rnd, t, rnd.choice([6, 7]))] + list(F)
+        if i % 3 == 2:
+            B.insert(1, structured(rnd, 6))
+        for k, first in enumerate(FUNS):
+            via = vias[(i + k) % len(vias)]
+            order = [first] + [f for f in FUNS[k + 1:] + FUNS[:k]]
+            if via == "Av":
+                order = [f for f in order if f in AVM] if first in AVM else []
+            if order:
+                argv = [sys.executable, "-c", COLD, json.dumps([list(p) for p in B]), json.dumps(order), via]
+                out.append((B, via, subprocess.Popen(argv, stdout=subprocess.PIPE, stderr=subprocess.PIPE, text=True)))
+    return out
+
+
+def record_probes(ctx, memo, rnd, quick, ncount, cold, decisive):
+    """(head, tail): events recorded before and after the long random history of record_trace."""
+    head, tail = [], []
+    scale = 1 if quick else 6
+
+    def ask(events, seq, f, thunk, via):
+        st, got = util.call(thunk)
+        if st == "raise" or not isinstance(got, (bool, int)):
+            ctx.violation({"kind": "event", "basis": [list(p) for p in seq], "f": NAME[f], "container": via}, "NoException", "a verdict", got)
+            return
+        events.append({"op": "Q", "basis": [list(p) for p in seq], "f": f, "res": bool(got), "via": via})
+
+    # -- the real command line, started now and read at the end
+    cmds = []
+    for i in range(3 if quick else 10):
+        B = rand_basis(rnd, 6)
+        name, mk = TEXTS[i % len(TEXTS)]
+        cmds.append((B, "poly", name, command_line("poly", mk(B))))
+        cmds.append((B, "insenc", name, command_line("insenc", mk(B))))
+    # -- degenerate bases: no element at all, the empty permutation, the point
+    for B in ([], [()], [(0,)], [(), (1, 0)], [(), ()]):
+        for k, f in enumerate(FUNS):
+            perms = [Perm(p) for p in B]
+            form = ("list", "iterator", "set", "generator", "tuple", "deque")[k]
+            ask(head, B, f, lambda: REAL[f](build(form, perms)), form)
+    # -- whole symmetry orbits of a structured long permutation, images in shuffled order, functions in rotating order
+    # (the other elements: a filler basis of short elements having every type but one, so that the long element
+    # often decides the verdict; every third orbit with an arbitrary small filler)
+    plain = [[(0, 1, 2), (1, 0, 2)], [(2, 1, 0), (1, 2, 0)], [(0, 2, 1)], []]
+    for i in range(10 * scale):
+        t, fdec, F = decisive[(i * 5 + rnd.randrange(5)) % len(decisive)]
+        q = Perm(aimed(rnd, t, rnd.choice([6, 7, 7, 8])) if i % 3 else structured(rnd, rnd.choice([6, 7, 7, 8])))
+        imgs = [tuple(REAL_SYM[g](q)) for g in SYMS]
+        rnd.shuffle(imgs)
+        for j, img in enumerate(imgs):
+            B = (list(F) if i % 3 else plain[i % len(plain)]) + [img]
+            k = (i + j) % 6
+            ev = v_event(ctx, memo, B, 5, order=FUNS[k:] + FUNS[:k])
+            if ev is not None:
+                ev["form"] = "orbit"
+                tail.append(ev)
+    # -- bases of 6-10 elements with repeated elements, in one-shot and unordered forms
+    forms = ("generator", "iterator", "map", "set", "frozenset", "filter", "chain", "setiter", "dictvalues", "deque", "reversed", "dictkeys")
+    for i in range(12 * scale):
+        B = [structured(rnd, rnd.choice([3, 4, 4, 5, 5, 6, 7])) if rnd.random() < 0.6 else util.rand_perm(rnd, rnd.choice([3, 4, 5, 6]))
+             for _ in range(rnd.randint(6, 10))]
+        B += [rnd.choice(B) for _ in range(rnd.randint(1, 3))]
+        rnd.shuffle(B)
+        perms = [Perm(p) for p in B]
+        form = forms[i % len(forms)]
+        ev = v_event(ctx, memo, B, ncount, mk=lambda: build(form, perms))
+        if ev is not None:
+            ev["form"] = form
+            tail.append(ev)
+    # -- finite classes, counted beyond the Erdos-Szekeres bound of their basis
+    for i in range(10 * scale):
+        a, b = rnd.choice([(2, 5), (3, 3), (3, 4), (4, 3), (4, 4), (3, 5), (5, 3), (2, 7), (6, 2), (3, 4)])
+        B = [tuple(range(a)), tuple(range(b - 1, -1, -1))] + [util.rand_perm(rnd, rnd.choice([3, 4, 5, 6])) for _ in range(rnd.choice([0, 0, 1, 2]))]
+        if i % 3 == 0:
+            B.append(tuple(range(a + 1)))            # a longer monotone element must not change the bound
+        rnd.shuffle(B)
+        ev = v_event(ctx, memo, B, ncount, beyond=True)
+        if ev is not None:
+            ev["form"] = "finite, counted to length %d" % (len(ev["counts"]) - 1)
+            tail.append(ev)
+    # -- class objects created before / after enumeration and clear_cache
+    for i in range(8 * scale):
+        B = rand_basis(rnd, 6)
+        perms = [Perm(p) for p in B]
+        st, a = util.call(lambda: Av(Basis(*perms)))
+        if st == "raise":
+            ctx.violation({"kind": "event", "basis": [list(p) for p in B], "container": "Av"}, "NoException", "a class object", a)
+            continue
+        for f, m in AVM.items():
+            ask(tail, B, f, lambda: m(a), "Av object")
+        util.call(a.count, 4 + i % 3)
+        for f, m in AVM.items():
+            ask(tail, B, f, lambda: m(a), "Av object after enumeration")
+        Av.clear_cache()
+        for f, m in AVM.items():
+            ask(tail, B, f, lambda: m(a), "Av object created before clear_cache")
+        for f, m in AVM.items():
+            ask(tail, B, f, lambda: m(Av(Basis(*perms))), "Av object created after clear_cache")
+        ask(tail, B, "poly", lambda: Av(iter(perms)).is_polynomial(), "Av(iterator)")
+        ask(tail, B, "ie", lambda: Av(set(perms)).is_insertion_encodable(), "Av(set)")
+        ask(tail, B, "fin", lambda: Av.from_iterable(p for p in perms).is_finite(), "Av.from_iterable(generator)")
+    # -- the command line functions with the basis written 0-based / 1-based with several separators
+    for i in range(8 * scale):
+        B = rand_basis(rnd, 7)
+        for name, mk in TEXTS:
+            text = mk(B)
+            st, out = util.call(cli_out, "poly", text)
+            got = parse_poly(out) if st == "ok" else None
+            if st == "raise" or not isinstance(got, bool):
+                ctx.violation({"kind": "event", "basis": [list(p) for p in B], "f": "cli poly", "container": name}, "NoException", "a poly line", out)
+            else:
+                tail.append({"op": "Q", "basis": [list(p) for p in B], "f": "poly", "res": got, "via": "cli poly, " + name})
+            st, out = util.call(cli_out, "insenc", text)
+            if st == "raise":
+                ctx.violation({"kind": "event", "basis": [list(p) for p in B], "f": "cli insenc", "container": name}, "NoException", "insenc lines", out)
+            else:
+                for f, got in parse_insenc(out).items():
+                    tail.append({"op": "Q", "basis": [list(p) for p in B], "f": f, "res": got, "via": "cli insenc, " + name})
+    # -- lazy arguments: tee'd iterators, a half-consumed iterator (the rest is the basis), two generators alive at once
+    for i in range(10 * scale):
+        B, C = rand_basis(rnd, 6), rand_basis(rnd, 6)
+        pb, pc = [Perm(p) for p in B], [Perm(p) for p in C]
+        f1, f2 = FUNS[i % 6], FUNS[(i + 1 + i // 6) % 6]
+        t1, t2 = itertools.tee(iter(pb))
+        g1, g2 = (p for p in pb), (p for p in pc)
+        ask(tail, B, f1, lambda: REAL[f1](t1), "first of two tee'd iterators")
+        ask(tail, C, f2, lambda: REAL[f2](g2), "second of two live generators")
+        ask(tail, B, f2, lambda: REAL[f2](t2), "second of two tee'd iterators")
+        ask(tail, B, f1, lambda: REAL[f1](g1), "first of two live generators")
+        if len(pc) >= 2:
+            it = iter(pc)
+            next(it)
+            ask(tail, C[1:], f1, lambda: REAL[f1](it), "half-consumed iterator")
+    # -- the cold processes and the command lines started earlier
+    for B, via, proc in cold:
+        try:
+            out, err = proc.communicate(timeout=600)
+        except subprocess.TimeoutExpired as ex:
+            proc.kill()
+            raise tlc.MachineryFailure("C13: cold process timed out") from ex
+        case = {"kind": "event", "basis": [list(p) for p in B], "container": "cold process, " + via}
+        if proc.returncode != 0:
+            ctx.violation(case, "NoException", "verdicts", (err.strip().splitlines() or ["failed"])[-1])
+            continue
+        for k, (f, st, got) in enumerate(json.loads(out)):
+            if st == "raise":
+                ctx.violation(dict(case, f=NAME[f]), "NoException", "a verdict", got)
+            else:
+                tail.append({"op": "Q", "basis": [list(p) for p in B], "f": f, "res": got, "via": "cold process, %s, call %d" % (via, k + 1)})
+    for B, cmd, name, proc in cmds:
+        try:
+            out, err = proc.communicate(timeout=600)
+        except subprocess.TimeoutExpired as ex:
+            proc.kill()
+            raise tlc.MachineryFailure("C13: command line timed out") from ex
+        got = (parse_poly(out) if cmd == "poly" else parse_insenc(out)) if proc.returncode == 0 else None
+        if got is None or (cmd == "poly" and not isinstance(got, bool)):
+            ctx.violation({"kind": "event", "basis": [list(p) for p in B], "f": "permtools " + cmd, "container": name}, "NoException",
+                          "the command prints its verdict", (err.strip().splitlines() or [out])[-1])
+            continue
+        for f, res in ({"poly": got} if cmd == "poly" else got).items():
+            tail.append({"op": "Q", "basis": [list(p) for p in B], "f": f, "res": res, "via": "permtools %s, %s" % (cmd, name)})
+    return head, tail
+
 
 def record_trace(ctx, memo, rnd, nv, nsym, ncount):
     events = []
@@ -813,7 +1123,8 @@ def replay(ctx, path):
         seq = [tuple(p) for p in case["basis"]]
     elif kind == "set":
         seq = [tuple(p) for p in case["basis"]]
-    elif kind == "event" and "event" in case and case["event"].get("op") == "V":
+    elif kind == "event" and "event" in case and case["event"].get("op") in ("V", "Q") and case["event"]["basis"] and all(case["event"]["basis"]):
+        # (a single question is replayed through the six functions on the list form of its basis)
         seq = [tuple(p) for p in case["event"]["basis"]]
     else:
         raise tlc.MachineryFailure("this C13 case is replayed by re-running the check with the same VERIF_SEED")
